@@ -182,8 +182,8 @@ def subject_source(metas, extra_src="", pairs=()):
         mkf = "|b: &'_ [u8]| std::str::from_utf8(b).ok()" if is_str else "|b: &'_ [u8]| Some(b)"
         parts.append("fn mk_p%d<'a>(b: &'a [u8]) -> Option<&'a %s> { %s }" % (pidx, "str" if is_str else "[u8]", "std::str::from_utf8(b).ok()" if is_str else "Some(b)"))
         parts.append("crate::api_pair!(api_p%d, D%d, D%d, mk_p%d);" % (pidx, ia, ib, pidx))
-        api_arms.append("        %d => api_p%d(bytes, partial, script, out)," % (pidx, pidx))
-    parts.append("pub fn dispatch_api(pidx: usize, bytes: &[u8], partial: bool, script: &str, out: &mut String) -> bool {\n    match pidx {\n"
+        api_arms.append("        %d => api_p%d(bytes, bytes2, partial, script, out)," % (pidx, pidx))
+    parts.append("pub fn dispatch_api(pidx: usize, bytes: &[u8], bytes2: &[u8], partial: bool, script: &str, out: &mut String) -> bool {\n    match pidx {\n"
                  + "\n".join(api_arms) + "\n        _ => return false,\n    }\n    true\n}\n")
     parts.append("pub fn dispatch(idx: usize, req: &crate::Req, out: &mut String) -> bool {\n    match idx {\n"
                  + "\n".join(arms) + "\n        _ => return false,\n    }\n    true\n}\n")
